@@ -76,47 +76,56 @@ let () =
   let impl_arr = Array.of_list impl_lines in
   let idx = ref (-1) in
   let fl = flags_of (if Array.length Sys.argv > 3 then Sys.argv.(3) else "repaired") in
+  let cur = Buffer.create 1024 in
+  let emit s = Buffer.add_string cur s in
   List.iter (fun line ->
     incr idx;
-    let refused = if !idx < Array.length impl_arr then refused_of impl_arr.(!idx) else [] in
+    let impl_line = if !idx < Array.length impl_arr then Some impl_arr.(!idx) else None in
+    let refused = match impl_line with Some l -> refused_of l | None -> [] in
     let refuse (b : n list) : bool = List.mem (hexs b) refused in
-    let ipcp_cfg_of pa d1 d2 = with_refuse (ipcp_cfg_of pa d1 d2) refuse in
-    try
+    (* the second free choice: when ProcessConfReq records the proposed values in peer.* — option by option
+       (/repo HEAD) or only from a wholly acceptable request.  Both are admissible: the line is rendered for
+       the first and, if the implementation's line differs, for the second. *)
+    let render (stage : bool) =
+    Buffer.clear cur;
+    let ipcp_cfg_of pa d1 d2 = with_stage (with_refuse (ipcp_cfg_of pa d1 d2) refuse) stage in
+    let refuse = (refuse, stage) in
+    (try
     match tokens line with
     | "ipcp" :: pa :: d1 :: d2 :: reqs ->
       let c = ipcp_cfg_of pa d1 d2 in
       let (outs, p) = List.fold_left (fun (acc, p) rq ->
-          let (r, p') = ipcp_req c p (opts_of rq) in (show_res r :: acc, p')) ([], ipeer0) reqs in
-      print_endline (String.concat " | " (List.rev outs) ^ " ; P=" ^ show_ipeer p)
+          let (r, p') = ipcp_req_c c p (opts_of rq) in (show_res r :: acc, p')) ([], ipeer0) reqs in
+      emit (String.concat " | " (List.rev outs) ^ " ; P=" ^ show_ipeer p)
     | "lcp" :: magic :: reqs ->
       let m = n_of_decimal magic in
       let (outs, p) = List.fold_left (fun (acc, p) rq ->
           let (r, p') = lcp_req fl m p (opts_of rq) in (show_res ~sugg:true r :: acc, p')) ([], lpeer0) reqs in
-      print_endline (String.concat " | " (List.rev outs) ^ " ; P=" ^ show_lpeer p)
+      emit (String.concat " | " (List.rev outs) ^ " ; P=" ^ show_lpeer p)
     | "v6" :: iid :: reqs ->
       let local = unhex iid in
       let (outs, p) = List.fold_left (fun (acc, p) rq ->
           let s = ipv6cp_req local p oracle (opts_of rq) in
           (show_res ~sugg:true s.v6_res :: acc, s.v6_peer)) ([], List.init 8 (fun _ -> N0)) reqs in
-      print_endline (String.concat " | " (List.rev outs) ^ " ; P=" ^ hexs p)
+      emit (String.concat " | " (List.rev outs) ^ " ; P=" ^ hexs p)
     | "fsm" :: "i" :: pa :: d1 :: d2 :: st :: id :: [wire] ->
       let c = ipcp_cfg_of pa d1 d2 in
       let ((acts, st'), p) = ipcp_input c (n_of_int (int_of_string st)) ipeer0 (n_of_int (int_of_string id)) (unhex wire) in
       let v = match parse_wire (unhex wire) with
         | Ok os -> show_res (fst (ipcp_req c ipeer0 os)) | _ -> "unparsed" in
-      Printf.printf "%s ; st=%d ; P=%s ; V %s\n" (show_acts acts) (int_of_n st') (show_ipeer p) v
+      Printf.bprintf cur "%s ; st=%d ; P=%s ; V %s\n" (show_acts acts) (int_of_n st') (show_ipeer p) v
     | "fsm" :: "l" :: magic :: st :: id :: [wire] ->
       let ((acts, st'), p) = lcp_input fl (n_of_decimal magic) (n_of_int (int_of_string st)) lpeer0
           (n_of_int (int_of_string id)) (unhex wire) in
       let v = match parse_wire (unhex wire) with
         | Ok os -> show_res ~sugg:true (fst (lcp_req fl (n_of_decimal magic) lpeer0 os)) | _ -> "unparsed" in
-      Printf.printf "%s ; st=%d ; P=%s ; V %s\n" (show_acts ~sugg:true acts) (int_of_n st') (show_lpeer p) v
+      Printf.bprintf cur "%s ; st=%d ; P=%s ; V %s\n" (show_acts ~sugg:true acts) (int_of_n st') (show_lpeer p) v
     | "fsm" :: "6" :: iid :: st :: id :: [wire] ->
       let ((acts, st'), p) = ipv6cp_input (unhex iid) (n_of_int (int_of_string st)) (List.init 8 (fun _ -> N0)) oracle
           (n_of_int (int_of_string id)) (unhex wire) in
       let v = match parse_wire (unhex wire) with
         | Ok os -> show_res ~sugg:true (ipv6cp_req (unhex iid) (List.init 8 (fun _ -> N0)) oracle os).v6_res | _ -> "unparsed" in
-      Printf.printf "%s ; st=%d ; P=%s ; V %s\n" (show_acts ~sugg:true acts) (int_of_n st') (hexs p) v
+      Printf.bprintf cur "%s ; st=%d ; P=%s ; V %s\n" (show_acts ~sugg:true acts) (int_of_n st') (hexs p) v
     | "hi" :: pa :: d1 :: d2 :: ops ->
       let s0 = { io_cfg = ipcp_cfg_of pa d1 d2; io_peer = ipeer0 } in
       let (outs, s) = List.fold_left (fun (acc, s) tok ->
@@ -129,7 +138,7 @@ let () =
           let (s', r) = iobj_step fl s op in
           let o = match r with Some r -> show_res r | None -> "B=" ^ show_opts (build_confreq s'.io_cfg) in
           (o :: acc, s')) ([], s0) ops in
-      print_endline (String.concat " | " (List.rev outs) ^ " ; P=" ^ show_ipeer s.io_peer)
+      emit (String.concat " | " (List.rev outs) ^ " ; P=" ^ show_ipeer s.io_peer)
     | "hl" :: magic :: ops ->
       let (outs, s) = List.fold_left (fun (acc, s) tok ->
           let tl = String.sub tok 1 (String.length tok - 1) in
@@ -141,7 +150,7 @@ let () =
           let (s', r) = lobj_step fl s op in
           let o = match r with Some r -> show_res ~sugg:true r | None -> "B=" ^ show_opts (lcp_build s') in
           (o :: acc, s')) ([], lobj0 (n_of_decimal magic)) ops in
-      print_endline (String.concat " | " (List.rev outs) ^ " ; P=" ^ show_lpeer s.lo_peer)
+      emit (String.concat " | " (List.rev outs) ^ " ; P=" ^ show_lpeer s.lo_peer)
     | "h6" :: iid :: ops ->
       let s0 = { vo_local = unhex iid; vo_rej = []; vo_peer = List.init 8 (fun _ -> N0) } in
       let (outs, s) = List.fold_left (fun (acc, s) tok ->
@@ -153,7 +162,7 @@ let () =
           let (s', r) = v6obj_step s op in
           let o = match r with Some r -> show_res ~sugg:true r | None -> "B=" ^ show_opts (v6_build s') in
           (o :: acc, s')) ([], s0) ops in
-      print_endline (String.concat " | " (List.rev outs) ^ " ; P=" ^ hexs s.vo_peer)
+      emit (String.concat " | " (List.rev outs) ^ " ; P=" ^ hexs s.vo_peer)
     | (("sess" | "lns") as kind) :: start :: evs ->
       (* <aaa>[/<alloc>[/<reserve>]]: aaa = none | hex; alloc = none | full | hex (pool allocation result);
          reserve = ok | cf (ReserveIP of the session's address) *)
@@ -195,7 +204,7 @@ let () =
           if s.s_owner = Ended then ("ended" :: acc, s') else
           (Printf.sprintf "%s up=%d a=%s pa=%s pn=%s" (show_acts ~callbacks:false ~req:(Some s'.s_lastreq) acts) (if s'.s_open then 1 else 0) (show_addr s'.s_addr) (show_addr s'.s_cfg.ic_assigned) (if int_of_n s'.s_fsm = 0 then "-" else show_addr s'.s_peer.pp_addr) :: acc, s'))
           ([first], s0) evs in
-      print_endline (String.concat " | " (List.rev outs))
+      emit (String.concat " | " (List.rev outs))
     | (("s6" | "l6") as k6) :: mac :: evs ->
       (* IPv6CP inside a PPPoE session: <bng mac> then events q<id>.<wire> | e<id> | k | n<wire> | j<wire> | R
          l6: inside an LNS session: no identifier is installed, the random default of NewIPv6CP stays; it is
@@ -233,7 +242,7 @@ let () =
           if !ended then ("ended" :: acc, s) else begin
             (if ev.[0] = 'R' || ev.[0] = 'D' then ended := true);
             let (s', acts) = v6sess_step s e in (show s' acts :: acc, s') end) ([show s1 a1], s1) evs in
-      print_endline (String.concat " | " (List.rev outs))
+      emit (String.concat " | " (List.rev outs))
     | "sl" :: start :: evs ->
       (* LCP inside a PPPoE session: start = "fresh" (initPPP + up; the random magic is what the implementation's
          first Configure-Request announces) | "restore:<magic hex8>" (installInMemoryState) *)
@@ -285,6 +294,14 @@ let () =
           (* a restored session is in the Open phase: LCP leaving Opened ends it (e9950ea) *)
           if restored && List.mem Tld acts then ended := true;
           (show s' acts :: acc, s') end) ([show s0 a0], s0) evs in
-      print_endline (String.concat " | " (List.rev outs))
-    | _ -> print_endline "badline"
-    with e -> print_endline ("modelerror " ^ Printexc.to_string e)) lines
+      emit (String.concat " | " (List.rev outs))
+    | _ -> emit "badline"
+    with e -> emit ("modelerror " ^ Printexc.to_string e));
+    let r = Buffer.contents cur in
+    let n = String.length r in
+    if n > 0 && r.[n - 1] = '\n' then String.sub r 0 (n - 1) else r in
+    let a = render false in
+    let out = match impl_line with
+      | Some l when l <> a -> let b = render true in if b = l then b else a
+      | _ -> a in
+    print_endline out) lines
